@@ -1,24 +1,25 @@
 """C02 — see DESIGN.md section 3."""
 from common import *
+from mr_harnesses import MR_INJECT, MR_HARNESSES_C02, MR_ASSUMPTIONS, MR_OUTSIDE
 
 _rp = "rtps::rtps_reader_proxy::verif_harness_rproxy"
 PROP = {
     "title": "convergence after finite loss, then quiescence (per-round obligations)",
     "design_ref": "DESIGN.md section 3, C02",
-    "inject": dict(ENV_INJECT, **{"src/rtps/rtps_reader_proxy.rs": ["rproxy"], "src/structure/sequence_number.rs": ["seqnum"]}),
+    "inject": dict(MR_INJECT, **{"src/rtps/rtps_reader_proxy.rs": ["rproxy"]}),
     "shim_files": RTPS_SHIM_FILES,
     "cap": {"quick": 4, "thorough": 6},
     "sn_window": {"quick": 4, "thorough": 5},
     "harnesses": [
         H("c02_rproxy_acknack_step", _rp, "one ACKNACK (any base, 4-bit bitmap) from ANY valid reader-proxy state: acked-before == max(base,1); to-be-sent == (old ∪ requested) above the frontier, cut at last available; pending GAPs == old ones at or above the frontier", "SNs 0..W+1, CAP entries per set"),
         H("c02_rproxy_bookkeeping_step", _rp, "notify_new_cache_change / mark_change_sent / remove_from_unsent_set_all_before / insert_pending_gap / set_pending_gap_up_to from ANY valid state", "SNs 1..W+1"),
-    ],
-    "bounds": {"unwind": 9},
-    "outside": [],
-    "assumptions": ["stub: std::fmt::format -> empty String"],
+    ] + MR_HARNESSES_C02,
+    "bounds": {"unwind": "9 (kernels) / as in harness/mr.rs (MessageReceiver rig)"},
+    "outside": ["timers and the event loop that fires them", "the repair SEND path of the Writer object (DATA/GAP emission after an ACKNACK): a Writer object plus the message builder did not fit in 14 GB; who-gets-what is decided in C04's c04_single_reader_send_guard", "composition over rounds (by hand, DESIGN.md C02)"] + MR_OUTSIDE,
+    "assumptions": ["stub: std::fmt::format -> empty String"] + MR_ASSUMPTIONS,
     "trusted": ["/verif/shim/collections.rs"],
     "explanation": "C02: per-round progress obligations on the real writer-side reader proxy.",
     "technique": "Kani/CBMC bounded symbolic model checking: inductive steps of the real RtpsReaderProxy from arbitrary valid states",
     "level_text": "SAT-solver verdict over all valid proxy states and ACKNACK contents inside the window.",
-    "level_note": "Per-round obligations only; the composition argument (DESIGN.md C02) is by hand.",
+    "level_note": "Per-round obligations only (reader-proxy bookkeeping from any state; forwarding of reader submessages by the real MessageReceiver); the composition argument (DESIGN.md C02) is by hand. OPEN FINDING: NACK_FRAG is dropped by MessageReceiver (KNOWN-FINDING line).",
 }
